@@ -24,7 +24,11 @@ EXPLANATION = (
     "the unpacked tuple in Sample._load_dump by root state component; the two value codecs are lifted and folded "
     "as a round trip on sample tables (multiset equality); completeness = set comparison between attributes of "
     "the sample read outside sam.py (or by _make_coverage) and the dumped components plus an explicit exemption "
-    "table; member-name templates of writer and reader folded on sample names; guard facts of the dump call."
+    "table; member-name templates of writer and reader folded on sample names. Whole folds: Sample.__init__ (the dump writer runs "
+    "once, on the loader's tables, for alignment input under debug only); genotype() original run vs replay (alias presets, re-applied and "
+    "default parameters); what runs between loader and dump writer leaves the dumped state unchanged; writer -> reader -> coverage "
+    "construction round trip; the archive route on a file-system model (main --debug on an argparse model, archive members of three genes "
+    "read back by detect_genome and _load_dump)."
 )
 ASSUMPTIONS = ["pickle round-trips Python values (stdlib)", "tar/gzip preserve member names (external tools)"]
 
